@@ -141,6 +141,7 @@ class Tr:
             if len(entries) != len(re.findall(r"Box::new\(\s*\|", b[mt.end():e])) or len(entries) != len(re.findall(r"\(\s*\"\w+\"\s*,", b[mt.end():e])):
                 raise AnchorLost(fn + ": an entry of the parser table is outside rule G7")
             e2 = b.index(";", e) + 1
+            self.table_entries = list(entries)
             b = b[:mt.start()] + "let parsers: Vec<A> = vec![%s];\n  proof { assert(parsers@ =~= seq![%s]); }   // ghost: names the table" % (", ".join(entries), ", ".join(entries)) + b[e2:]
         # G5
         def g5(m):
@@ -170,6 +171,23 @@ def simple_fn(tr, text, name, ret, ens):
     if not re.search(r"\(\s*input\s*:\s*ParseString\s*\)\s*->\s*ParseResult<\w+>", sig):
         raise AnchorLost(name + ": signature changed")
     return ("fn %s(input: Input) -> (r: Option<(Input, %s)>)\n  ensures %s,\n" % (name, ret, ens)) + tr.body(name, body) + "\n"
+
+
+def factor_fn(tr, text):
+    """`factor`: the contract is stated over the parser table READ FROM THE CODE (a new primary is not an alarm); a ghost lemma checks that the table still
+    holds the three primaries the property speaks of"""
+    sig, body = extract_fn(text, "factor")
+    if not re.search(r"\(\s*input\s*:\s*ParseString\s*\)\s*->\s*ParseResult<Factor>", sig):
+        raise AnchorLost("factor: signature changed")
+    tr.table_entries = None
+    b = tr.body("factor", body)
+    if not tr.table_entries:
+        raise AnchorLost("factor: the parser table `let parsers = vec![..]` not found")
+    tab = "seq![%s]" % ", ".join(tr.table_entries)
+    return ("fn factor(input: Input) -> (r: Option<(Input, Factor)>)\n  ensures r == factor_spec_of(%s, input),\n" % tab + b + "\n"
+            "proof fn required_primaries()\n  ensures has_required_primaries(%s),\n{\n"
+            "  let t = %s;\n" % (tab, tab) +
+            "".join("  if %d < t.len() { assert(t[%d] == %s); }\n" % (k, k, e) for k, e in enumerate(tr.table_entries)) + "}\n")
 
 
 def class_fn(tr, text, fname, variant, members):
@@ -203,6 +221,8 @@ def units(plan):
             try:
                 items.append(build(tr))
                 fns[fn] = on
+                if fn == "factor":
+                    fns["required_primaries"] = on          # ghost lemma of the same obligation: the table holds the primaries the property names
             except AnchorLost as e:
                 plan.anchor_errors.append((on, str(e)))
         if not fns:
@@ -217,7 +237,7 @@ def units(plan):
     mk("c02_formula", [("formula", "C02.grammar.formula.loosest_level", lambda tr: simple_fn(tr, text, "formula", "Factor", "r == pf(A::L1, input)"),
         "a formula is parsed by the loosest level (l1)")])
     mk("c02_factor", [
-        ("factor", "C02.grammar.factor.primaries_and_transpose", lambda tr: simple_fn(tr, text, "factor", "Factor", "r == factor_spec(input)"),
+        ("factor", "C02.grammar.factor.primaries_and_transpose", lambda tr: factor_fn(tr, text),
          "a factor is one of the primaries (among them parenthesised formula, negation, logical not) with an optional postfix transpose applied to that primary only"),
         ("negate_factor", "C02.grammar.negate_factor.binds_a_factor", lambda tr: simple_fn(tr, text, "negate_factor", "Factor", "r == prefix_spec(A::Dash, input, true)"),
          "unary minus applies to the factor that follows it"),
